@@ -21,7 +21,7 @@ class Oracle(BaseOracle):
                 found.append((kind, detail))
 
             try:
-                n_ok, n_inv = oracles.forward_check(src, q, report)
+                n_ok, n_inv = oracles.forward_check(src, q, report, between=chain[len(chain) - k:])
             except Exception as ex:
                 self.res["errors"].append(f"forward_check crashed: {type(ex).__name__}: {ex}")
                 continue
@@ -29,8 +29,11 @@ class Oracle(BaseOracle):
             self.stat("cursors_invalidated", n_inv)
             for kind, detail in found[:3]:
                 ck = "block" if "block" in detail else ("gap" if "gap" in detail else "stmt")
+                # events between src and q (chain level: an earlier step's forwarding is part of the chain)
+                between_evs = list(self.st.hist[len(chain) - 1 - k:]) + [ev]
+                via_guard = any(e["op"] == "add_loop" and len(e.get("a", [])) >= 4 and e["a"][3] is True for e in between_evs)
                 self.violation({"oracle": "forward", "kind": kind, "op": ev["op"], "level": level, "cursor_kind": ck,
-                                "exc": str(detail.get("exc", "-")).split(":")[0],
+                                "exc": str(detail.get("exc", "-")).split(":")[0], "via_add_loop_guard": via_guard,
                                 "seed": self.st.seed.name, "depth": len(self.st.hist) + 1,
                                 "args": json.dumps(ev.get("a", []), sort_keys=True)[:200]},
                                {"event": ev, "detail": detail, "level": level, "src_index": len(chain) - 1 - k,
